@@ -356,12 +356,78 @@ def ingest_models(ctx):
             raise MachineryError(f"negative control {cfg} did not find {expect}\n{r.output[-1500:]}")
 
 
+def git_opinion(ctx, shapes):
+    """C git as a third opinion on the *model*: `git index-pack --stdin --fix-thin` in a repository that has S
+    must accept exactly the packs the thin-stream reader of the model accepts (dulwich is not involved)."""
+    if not shutil.which("git"):
+        ctx.assumptions.append("git not found: the model's accept/reject answers were not compared with git index-pack")
+        return
+    from concurrent.futures import ThreadPoolExecutor
+    keys = sorted(shapes)
+    limit = ctx.pick(240, 16000)
+    if len(keys) > limit:
+        keys = ctx.rng.sample(keys, limit)
+    d = ctx.tmpdir("git")
+    env = dict(os.environ, GIT_CONFIG_NOSYSTEM="1", HOME=d, GIT_CONFIG_GLOBAL="/dev/null")
+
+    def work(w):
+        repo = os.path.join(d, f"r{w}.git")
+        subprocess.run(["git", "init", "-q", "--bare", repo], check=True, env=env, stdout=subprocess.DEVNULL, stderr=subprocess.DEVNULL)
+        subprocess.run(["git", "-C", repo, "hash-object", "-w", "--stdin"], input=L.S_CONTENT, check=True, env=env, stdout=subprocess.DEVNULL)
+        out = []
+        pd = os.path.join(repo, "objects", "pack")
+        for k in keys[w::4]:
+            ent, hdr, tr, szat, szdir = k
+            shape = {"e": [list(e) for e in ent], "hdr": hdr, "tr": tr, "szat": szat, "szdir": szdir}
+            data, _ = L.build_attack_pack(shape)
+            g = subprocess.run(["git", "-C", repo, "index-pack", "--stdin", "--fix-thin"], input=data, env=env,
+                               stdout=subprocess.DEVNULL, stderr=subprocess.PIPE)
+            for f in os.listdir(pd):
+                os.unlink(os.path.join(pd, f))
+            git_ok = g.returncode == 0
+            if git_ok not in {bool(a[0]) for a in shapes[k][1]}:
+                out.append({"shape": L.shape_key(shape), "git": "accepts" if git_ok else "rejects: " + g.stderr.decode("utf-8", "replace")[:100],
+                            "model": [("ok" if a[0] else "error:" + a[2]) for a in shapes[k][1]]})
+        return out
+    t0 = time.time()
+    with ThreadPoolExecutor(max_workers=4) as tp:
+        dis = [x for r in tp.map(work, range(4)) for x in r]
+    ctx.cov["git_third_opinion_on_model"] = {"shapes": len(keys), "agree": len(keys) - len(dis), "disagreements": dis[:10]}
+    ctx.log(f"git index-pack --fix-thin vs model (thin stream reader) on {len(keys)} shapes: {len(dis)} disagreements ({time.time() - t0:.1f}s)")
+    shutil.rmtree(d, ignore_errors=True)
+
+
+def random_big_shapes(ctx, n_cases):
+    """packs larger than TLC enumerates (5..8 entries, several damages at once): no model answer, judged by IngestTrace only"""
+    rng = ctx.rng
+    out = []
+    for _ in range(n_cases):
+        n = rng.randint(5, 8)
+        ent = []
+        for i in range(1, n + 1):
+            r = rng.random()
+            if r < 0.35:
+                ent.append([0, 0])
+            elif r < 0.65:
+                ent.append([1, rng.choice([-2, -1, 0] + list(range(1, i)) * 3)])
+            else:
+                ent.append([2, rng.randint(1, n + 2)])
+        szat = rng.choice([0, 0, 0, rng.randint(1, n)])
+        out.append({"e": ent, "hdr": rng.choice([0, 0, 0, -1, 1]), "tr": rng.choice([1, 1, 1, 0]),
+                    "szat": szat, "szdir": rng.choice([-1, 1]) if szat else 0})
+    return out
+
+
 KILLED_OBS = {"outcome": "killed", "ordinary": False, "pre": [], "post": [], "bad": 0, "partialvisible": False,
               "trailerok": True, "rawpath": False, "ms": 0, "budget": BUDGET_MS}
 
 
-def attack_cases(shapes, neg):
+def attack_cases(shapes, neg, big=()):
     cases, meta = [], {}
+    for shape in big:
+        cid = len(cases)
+        cases.append({"id": cid, "kind": "attack", "shape": shape, "paths": ALL_PATHS})
+        meta[cid] = ("big", shape)
     for k, exp in shapes.items():
         ent, hdr, tr, szat, szdir = k
         shape = {"e": [list(e) for e in ent], "hdr": hdr, "tr": tr, "szat": szat, "szdir": szdir}
@@ -395,6 +461,20 @@ def attack_results(ctx, judge, cases, meta, results):
             neg_info.append({"control": name, "invariant": expect, "counterexample": L.shape_key(cases[cid]["shape"]),
                              "path": cases[cid]["paths"][0], "real_code_exhibits_it": bool(shown), "real_outcome": f"{ev['outcome']}:{ev.get('exc')}"})
             nexec += 1
+            continue
+        if meta[cid][0] == "big":
+            shape = meta[cid][1]
+            skey = L.shape_key(shape)
+            if r.get("killed"):
+                judge.add_event(dict(KILLED_OBS), {"site": "dulwich/pack.py:(worker killed)", "case": "attack random n>4", "cls": "attack",
+                                                   "shape": skey, "replay": {"case": cases[cid]}, "ev": r})
+                continue
+            for ev in r["events"]:
+                nexec += 1
+                judge.add_event(judge.obs(ev, ev["path"], trailer_ok=(shape["tr"] == 1)),
+                                {"site": SITE[ev["path"]], "case": "attack random n>4", "cls": "attack", "shape": skey,
+                                 "replay": {"case": dict(cases[cid], paths=[ev["path"]])}, "ev": ev, "drift": None})
+                ctx.nontrivial(("attack", skey, ev["path"]))
             continue
         k, shape, exp = meta[cid]
         skey = L.shape_key(shape)
@@ -455,10 +535,10 @@ def attack_results(ctx, judge, cases, meta, results):
 def damage_plan(ctx):
     A = L.artefacts()
     if ctx.quick:
-        lv = {"pack.blobs": "full", "pack.thin": "full", "pack.commit": "light", "pack.badtree": "light",
+        lv = {"pack.blobs": "full", "pack.thin": "byte", "pack.commit": "light", "pack.badtree": "light",
               "idx.v1": "light", "idx.v2": "light", "idx.v3": "light",
               "loose.blob": "full", "loose.tree": "byte", "loose.commit": "light", "loose.tag": "light",
-              "index.v2": "byte", "index.v3": "light", "index.v4": "byte", "packed-refs": "byte",
+              "index.v2": "byte", "index.v3": "light", "index.v4": "light", "packed-refs": "byte",
               "commit-graph": "light", "midx": "light", "bitmap": "byte"}
     else:
         lv = {k: "full" for k in A}
@@ -695,7 +775,7 @@ def run(ctx):
     judge = Judge(ctx)
     ncpu = os.cpu_count() or 4
     half = max(2, min(8, ncpu // 2 - 1))
-    with ThreadPoolExecutor(max_workers=3) as tp:
+    with ThreadPoolExecutor(max_workers=4) as tp:
         f_ing = tp.submit(ingest_models, ctx)
         f_pa = tp.submit(attack_models, ctx)
         # independent of TLC: byte-level damage, bombs, fault-free transaction runs
@@ -705,10 +785,12 @@ def run(ctx):
         t0 = time.time()
         f_pool = tp.submit(run_pool, ctx, rcases + bcases + dcases, "dmg", half)
         shapes, neg, ex_a = f_pa.result()
-        acases, ameta = attack_cases(shapes, neg)
+        big = random_big_shapes(ctx, ctx.pick(60, 3000))
+        acases, ameta = attack_cases(shapes, neg, big)
+        f_git = tp.submit(git_opinion, ctx, shapes)
         t1 = time.time()
         ares = run_pool(ctx, acases, "atk", half)
-        ctx.log(f"structural attacks: {len(shapes)} shapes x {len(ALL_PATHS)} paths executed in {time.time() - t1:.1f}s")
+        ctx.log(f"structural attacks: {len(shapes)} enumerated + {len(big)} random larger shapes x {len(ALL_PATHS)} paths executed in {time.time() - t1:.1f}s")
         attack_results(ctx, judge, acases, ameta, ares)
         dres = f_pool.result()
         nexec, ex_b = damage_results(ctx, judge, dcases, dmeta, per_art, dres)
@@ -716,6 +798,7 @@ def run(ctx):
         bomb_results(ctx, judge, bcases, dres)
         tx_fault_part(ctx, judge, {c["id"]: (c, dres[c["id"]]) for c in rcases})
         f_ing.result()
+        f_git.result()
     t0 = time.time()
     judged = judge.judge()
     ctx.validated(judge.n)
